@@ -11,6 +11,8 @@ TRUSTED = [
     "Model/NoGc.v is a hand model of the emission (typed pipeline only: compile_typed_body / compile_typed_return), of the inliner's "
     "try_simple_inline on leaf functions and of the VM counter; tied on every run by hx_nogc (counters of the GC hook)",
     "hook runtime/src/verif.rs (gc_safepoint/gc_decide/gc_collected) counts safepoints and collections by depth; VM::no_gc_depth()",
+    "collection paths: the translator's textual scan for call sites of VM::collect / Heap::sweep (collect_paths); a collection reached through a "
+    "function pointer or a differently named wrapper is seen only dynamically (hook inside VM::collect; heap-filling regions must end in OutOfMemory)",
     "allocation points = the 5 maybe_collect call sites (string +, alloc(), function object creation, closure creation); "
     "array/vec/native allocations never reach maybe_collect and are outside the model",
     "the harness's own interpreter of the skeleton (hx_nogc.rs, Sim) is the search oracle: which safepoints lie inside a source-level region",
